@@ -17,7 +17,9 @@ import itertools
 import random
 import uuid
 
-from traits.api import HasTraits, TraitError, Any, Int, Float, Str, List, Dict, Instance
+from traits.api import (
+    HasTraits, TraitError, Undefined, Any, Int, Float, Str, List, Dict, Instance, ReadOnly, Constant, UUID,
+)
 
 from vf.reference import plainify
 from vf.util import same, short
@@ -335,6 +337,132 @@ def check_graph(ctx, rng, modes):
         ctx.count("graph_copies_independent" if strict else "graph_copies_ok")
 
 
+# --------------------------------------------------------------------------- write-restricted kinds
+# Traits that carry a value without ever being assigned by the user (or that accept one
+# assignment only): a copy has to get that value past the write restriction.
+class RoDeclared(HasTraits):
+    n = Int
+    ro = ReadOnly(5)
+
+
+class RoMethod(HasTraits):
+    n = Int
+    ro = ReadOnly
+
+    def _ro_default(self):
+        return 5 + self.n * 0
+
+
+class RoAssigned(HasTraits):
+    n = Int
+    ro = ReadOnly
+
+
+class RoUnassigned(HasTraits):
+    n = Int
+    ro = ReadOnly
+
+
+class RConst(HasTraits):
+    n = Int
+    ro = Constant(5)
+
+
+class RConstList(HasTraits):
+    n = Int
+    ro = Constant([1, 2])
+
+
+class RUuid(HasTraits):
+    n = Int
+    ro = UUID
+
+
+class RUuidInit(HasTraits):
+    n = Int
+    ro = UUID(can_init=True)
+
+
+class RUuidInitAuto(HasTraits):
+    n = Int
+    ro = UUID(can_init=True)
+
+
+RESTRICTED = [(RoDeclared, "ReadOnly.with-default"), (RoMethod, "ReadOnly.with-default"),
+              (RoAssigned, "ReadOnly.assigned"), (RoUnassigned, "ReadOnly.unassigned"),
+              (RConst, "Constant"), (RConstList, "Constant"), (RUuid, "UUID"),
+              (RUuidInit, "UUID.can_init"), (RUuidInitAuto, "UUID.can_init")]
+
+
+def restricted_make(cls, rng, read):
+    if cls is RUuidInit:
+        o = cls(n=rng.randint(0, 9), ro=uuid.UUID(int=rng.randint(1, 10 ** 6)))
+    else:
+        o = cls(n=rng.randint(0, 9))
+    if cls is RoAssigned:
+        o.ro = rng.randint(1, 99)
+    if read:
+        getattr(o, "ro")
+    return o
+
+
+def check_restricted(ctx, cls, kind, seed_key, modes):
+    for mode, mclass, fn in modes:
+        fam = "pickle" if mclass == "pickle" else "clone"      # deepcopy and clone_traits share copy_traits
+        for read in (True, False):
+            rng = random.Random("%s/%s/%s" % (seed_key, mode, read))
+            o = restricted_make(cls, rng, read)
+            ctx.count("restricted_copies")
+            ctx.ev()
+            state = "read" if read else "unread"
+            try:
+                c = fn(o)
+            except Exception as e:  # noqa: BLE001
+                ctx.sig("restricted", kind, fam, state, "raises")
+                ctx.violation("restricted/%s/restore-raises/%s" % (fam, kind),
+                              "%s of a %s whose %s value was %s before the copy raised %s: %s"
+                              % (mode, cls.__name__, kind, state, type(e).__name__, short(e, 160)),
+                              {"mode": mode, "class": cls.__name__, "read_before_copy": read})
+                continue
+            complaint = None
+            ctx.ev()
+            vo, vc = getattr(o, "ro"), getattr(c, "ro")
+            if type(c) is not cls:
+                complaint = "class-differs"
+            elif c.n != o.n:
+                complaint = "value-differs-other-trait"
+            elif not same(plainify(vo), plainify(vc)):
+                complaint = "value-differs"
+            if complaint is None:
+                # the restriction itself is live on the copy
+                ctx.ev()
+                if vc is Undefined:
+                    try:
+                        c.ro = 3
+                    except Exception as e:  # noqa: BLE001
+                        complaint = "first-write-rejected"
+                    vc = c.ro
+                if complaint is None:
+                    try:
+                        c.ro = uuid.UUID(int=3) if isinstance(vc, uuid.UUID) else 77
+                        complaint = "write-accepted"
+                    except TraitError:
+                        if not same(plainify(c.ro), plainify(vc)):
+                            complaint = "changed-by-rejected-write"
+                    except Exception as e:  # noqa: BLE001
+                        complaint = "wrong-exception-" + type(e).__name__
+            if complaint is None and not same(plainify(getattr(o, "ro")), plainify(vo)):
+                complaint = "original-changed"
+            ctx.sig("restricted", kind, fam, state, complaint)
+            if complaint:
+                ctx.violation("restricted/%s/%s/%s" % (fam, complaint, kind),
+                              "%s of a %s (%s value %s before the copy): %s: original %s, copy %s"
+                              % (mode, cls.__name__, kind, state, complaint, short(vo, 50), short(vc, 50)),
+                              {"mode": mode, "class": cls.__name__, "read_before_copy": read})
+            else:
+                ctx.count("restricted_copies_ok")
+
+
 # --------------------------------------------------------------------------- driver
 def run_more(ctx):
     nl = ctx.scale(96, 2400)
@@ -351,6 +479,18 @@ def run_more(ctx):
             if b == 0:
                 ctx.sample({"sub": "lazy-defaults", "class": "Dyn", "unread": dyn_make(random.Random(1))[1],
                             "modes": [m[0] for m in A.COPY_MODES]})
+        finally:
+            ctx.end()
+    nr = ctx.scale(6, 120)
+    for ci, (cls, kind) in enumerate(RESTRICTED):
+        if not ctx.mine(ci + 11):
+            continue
+        if not ctx.begin("restricted:%s" % cls.__name__, {"kind": kind}):
+            continue
+        try:
+            for i in range(nr):
+                check_restricted(ctx, cls, kind, "%s/restricted/%s/%d" % (ctx.seed, cls.__name__, i), A.COPY_MODES)
+                ctx.count("restricted_states")
         finally:
             ctx.end()
     ng = ctx.scale(160, 4000)
